@@ -1,19 +1,19 @@
 #!/bin/bash
-# usage: trymutant.sh <dir with patch.diff, demo.py> <property> [more properties...]
-# Applies the seeded change to /repo's working tree, runs the demo and the quick checks, reverts.
+# usage: trymutant.sh <dir with patch.diff (or patch.rebased.diff), demo.py> <property> [more properties...]
+# Applies the seeded change to a SCRATCH WORKTREE of /repo (never to /repo itself), runs the demo and the checks
+# against that worktree (VERIF_REPO), removes the worktree.
 d=$1; shift
-cd /repo || exit 2
-if [ -n "$(git status --porcelain --untracked-files=no)" ]; then echo "repo dirty"; exit 2; fi
+wt=$(mktemp -d /tmp/wt-mut-XXXXXX); rmdir $wt
+git -C /repo worktree add -q $wt HEAD || exit 2
+trap 'git -C /repo worktree remove --force '$wt' 2>/dev/null; git -C /repo worktree prune' EXIT
 pf="$d/patch.diff"; [ -f "$d/patch.rebased.diff" ] && pf="$d/patch.rebased.diff"
-if ! git apply --check "$pf" 2>/dev/null; then echo "PATCH-DOES-NOT-APPLY $pf"; exit 3; fi
-git apply "$pf"
-trap 'cd /repo; git checkout -q -- . ; git clean -fdq pysmi scripts 2>/dev/null' EXIT
+echo "--- demo without change (expect 0):"
+(cd $wt && PYTHONPATH=$wt timeout 300 /venv/bin/python "$d/demo.py" >/dev/null 2>&1; echo "demo exit=$?")
+if ! git -C $wt apply --check "$pf" 2>/dev/null; then echo "PATCH-DOES-NOT-APPLY $pf"; exit 3; fi
+git -C $wt apply "$pf"
 echo "--- demo with change (expect failure):"
-(cd /repo && PYTHONPATH=/repo timeout 300 /venv/bin/python "$d/demo.py" >/dev/null 2>&1; echo "demo exit=$?")
+(cd $wt && PYTHONPATH=$wt timeout 300 /venv/bin/python "$d/demo.py" >/dev/null 2>&1; echo "demo exit=$?")
 for p in "$@"; do
   echo "--- check $p"
-  (cd /verif && timeout 3000 ./check $p ${TIER:+--tier $TIER} ${SLICES:+--slices $SLICES} 2>&1 | grep -v "^DRIFT" | cut -c1-500 | tail -6; echo "check exit=${PIPESTATUS[0]}")
+  (cd /verif && VERIF_REPO=$wt VERIF_OUT=/tmp/mutant-out timeout 3000 ./check $p ${TIER:+--tier $TIER} ${SLICES:+--slices $SLICES} 2>&1 | grep -v "^DRIFT" | cut -c1-500 | tail -6; echo "check exit=${PIPESTATUS[0]}")
 done
-cd /repo; git checkout -q -- .
-echo "--- demo without change (expect 0):"
-(cd /repo && PYTHONPATH=/repo timeout 300 /venv/bin/python "$d/demo.py" >/dev/null 2>&1; echo "demo exit=$?")
